@@ -57,4 +57,5 @@ def build(tier):
     obs.append(e2obs.ob_canon('C01', D, module=False, label='C01.d'))
     obs.append(e2obs.ob_canon('C01', D, module=True, label='C01.d'))
     obs.append(decode.ob_decode('C01', 'C01.e'))
+    obs.append(e2obs.ob_second_opinion("C01", D))          # after all other z3 obligations of this run (they run in list order)
     return dict(obligations=obs, explanation="x", assumptions=[])
